@@ -526,6 +526,25 @@ func catalogue() []corruption {
 			(*r.deps)[0], (*r.deps)[1] = (*r.deps)[1], (*r.deps)[0]
 			return true
 		}},
+		{"deposit/first-one-twice", true, func(s *sim, r *blockRefs, _ *stateBox) bool {
+			// the right number of deposits, but the second is the first again (its proof is for the wrong leaf index)
+			if len(*r.deps) < 2 {
+				return false
+			}
+			d := append(phase0.Deposits(nil), *r.deps...)
+			d[1] = d[0]
+			*r.deps = d
+			return true
+		}},
+		{"deposit/last-one-twice", true, func(s *sim, r *blockRefs, _ *stateBox) bool {
+			if len(*r.deps) < 2 {
+				return false
+			}
+			d := append(phase0.Deposits(nil), *r.deps...)
+			d[0] = d[len(d)-1]
+			*r.deps = d
+			return true
+		}},
 		{"exit/signature", true, func(s *sim, r *blockRefs, _ *stateBox) bool {
 			if len(*r.exits) == 0 {
 				return false
@@ -760,7 +779,7 @@ func (s *sim) byzantine(parent *blockRec, blk *blockRec) {
 	// rare-state corruptions are tried first whenever the state allows them
 	var rare []corruption
 	for _, c := range cat {
-		if strings.HasSuffix(c.name, "of-withdrawable-validator") || c.name == "exit/too-young" || strings.HasSuffix(c.name, "under-current-version") {
+		if strings.HasSuffix(c.name, "of-withdrawable-validator") || c.name == "exit/too-young" || strings.HasSuffix(c.name, "under-current-version") || strings.HasSuffix(c.name, "-one-twice") {
 			rare = append(rare, c)
 		}
 	}
